@@ -97,6 +97,16 @@ Assign(o, v) ==
   /\ Touch(o) /\ wire' = <<>>
   /\ UNCHANGED <<phase, tor, view, tracked, inflight, busy, devUsed, evq>>
 
+\* cfg.o = cfg.o2: a list option is assigned what reading another list option returned.  The two stay independent:
+\* o gets that value, and a later edit of either is an edit of that one alone.
+AssignFrom(o, o2) ==
+  /\ phase = "attached" /\ o \in Lists /\ o2 \in Lists /\ o # o2
+  /\ LET v == view[o2] IN
+       /\ pend' = AppendNew(pend, o) /\ pval' = [pval EXCEPT ![o] = v] /\ shared' = [shared EXCEPT ![o] = FALSE]
+       /\ intent' = [intent EXCEPT ![o] = v]
+  /\ Touch(o) /\ wire' = <<>>
+  /\ UNCHANGED <<phase, tor, view, tracked, inflight, busy, devUsed, evq>>
+
 \* in-place edit of the list that reading the attribute returns.  Reads return the running
 \* configuration, so when the option has a pending value that is another object (an assignment,
 \* or an in-place edit overtaken by a change event) the edited list becomes the pending value:
@@ -234,6 +244,7 @@ Next ==
   \/ \E o \in Scalars, v \in SVals : Assign(o, <<v>>) /\ cnt.ops < MaxOps
   \/ \E o \in Lists, v \in UNION {[1..k -> Elems] : k \in 0..MaxLen} : Assign(o, v) /\ cnt.ops < MaxOps
   \/ \E o \in Lists : \E nv \in EditsOf(view[o]) : ListOp(o, nv) /\ cnt.ops < MaxOps
+  \/ \E o \in Lists, o2 \in Lists : AssignFrom(o, o2) /\ cnt.ops < MaxOps
   \/ SaveSend /\ cnt.saves < MaxSaves
   \/ SaveAck \/ SaveReject
   \/ \E chs \in Changes : OtherChange(chs) /\ cnt.evs < MaxEvents
